@@ -108,7 +108,9 @@ def run(tier, seed):
         "exhaustive": False,
         "enumeration": "for every enumerated script (<= 6 operations): every byte offset of its stdin x {interrupted, 4 hard-once kinds, "
                        "2 hard-forever kinds, early EOF} and every byte offset of its fault-free stdout x {interrupted, zero-length write, "
-                       "3 hard-once kinds, hard-forever, flush failing from here}, plus three short-transfer sizes; the script sample itself is seeded",
+                       "3 hard-once kinds, hard-forever, flush failing from here}, three short-transfer sizes, every byte offset of every opened "
+                       "input file x {EINTR, EIO once, EACCES for ever} and every byte offset of every written output file x {EINTR, EIO once, "
+                       "EPIPE once, ENOSPC for ever} (real read(2)/write(2) through the armed shim); the script sample itself is seeded",
         "multi_fault_scripts": multi,
         "fault_kinds_fired": merged("fault_kinds_fired"),
         "continuations_taken": merged("continuations_taken"),
@@ -121,12 +123,13 @@ def run(tier, seed):
         "runs_per_hour": int(evaluations / max(wall, 1e-6) * 3600),
         "components": {
             "real": ["checker + BuiltinRootLinker + dynamics Runtime::run, impls.rs, host.rs, lib/std/builtin/**", "real files in a tmpfs scratch directory, /dev/full, /dev/null, a directory, a missing directory"],
-            "stub": ["stdin: BufReader over a simulated device", "stdout/stderr: simulated device", "getrandom (zysim seam)"],
+            "stub": ["stdin: BufReader over a simulated device", "stdout/stderr: simulated device",
+                     "read(2)/write(2) of the named scratch files: interposed by the armed zysim shim", "getrandom (zysim seam)"],
         },
     }
     assumptions = [
         "faults sit at byte offsets of the stream, so the verdict does not depend on how the host sizes its buffers",
-        "real files are not fault-injected (no read/write interposition is armed); file faults are the special paths only",
+        "real files are fault-injected through the armed zysim shim (read/write interposition at byte offsets of named scratch files: EINTR, EIO, EACCES, EPIPE, ENOSPC) and through special paths",
         "the only permitted panics are the two documented legacy `expect`s of the stdio/write*/read* operations",
     ]
     return coverage, assumptions, violations, known_lines, wall
